@@ -132,7 +132,7 @@ def load_corpus():
             o["inputs"] = [{r: [tuple(t) for t in ts] for r, ts in inp.items()} for inp in o["inputs"]]
             cases.append(o)
         elif o["kind"] == "chain":
-            o["prog"] = c08_gen.chain(o["n"])
+            o["prog"] = c08_gen.chain(o["n"], o.get("disj", False))
             negs.append(o) if o["expect"] == "rejected" else cases.append(dict(o, feats=["corpus:" + o["name"]], origin="corpus: " + o["name"], inputs=[{"e0": [(1, 2), (2, 3)], "u0": [(1,), (2,)]}]))
         elif o["kind"] == "neg":
             negs.append(o)
@@ -172,7 +172,10 @@ def build_terminates(tag, text, rels, budget):
             return ("hang", round(time.time() - t0, 1))
     if p.returncode == 0:
         return ("compiled", "")
-    return ("rejected", "\n".join(l for l in out.splitlines() if "error" in l)[:400])
+    errs = [l for l in out.splitlines() if "error" in l]
+    if not any(": error" in l and "/m_h.rs:" in l for l in errs):
+        errs = ["compiler crashed / failed without a diagnostic at the program: " + " | ".join(out.splitlines()[-3:])[:300]]
+    return ("rejected", "\n".join(errs)[:400])
 
 
 def tie(tier, seed, replay):
@@ -188,6 +191,12 @@ def tie(tier, seed, replay):
                 ccases, cnegs, raws, hangs = [], [one], [], []
             else:
                 ccases, cnegs, raws, hangs = [one], [], [], []
+        elif c.get("raw"):
+            ccases, cnegs, hangs = [], [], []
+            raws = [dict(id="c08_r0", name=c.get("name", "replay"), text=c["program"], hand=c["hand_expansion"], rels=c["rels"], inputs=[c["input"]], known=None)]
+        elif c.get("hang"):
+            ccases, cnegs, raws = [], [], []
+            hangs = [dict(id="c08_r0", name=c.get("name", "replay"), text=c["program"], rels=c["rels"], known=None)]
         else:
             raise lib.Infra("replay file has no program")
     else:
@@ -237,7 +246,16 @@ def tie(tier, seed, replay):
     if main_jobs:
         impl.update(prog.build_and_run("c08", main_jobs))
     if exp_fail_jobs:
-        impl.update(prog.build_and_run("c08x", exp_fail_jobs, nbins=1))
+        try:
+            impl.update(prog.build_and_run("c08x", exp_fail_jobs, nbins=1))
+        except lib.Infra as e:
+            # the compiler itself died on the batch (e.g. stack overflow inside the macro): find out on which program
+            for j in exp_fail_jobs:
+                r = build_terminates("c08iso", j["text"], j["rels"], 60)
+                if r[0] == "rejected":
+                    impl[j["id"]] = [dict(compile_error=r[1] or "compiler failed without a diagnostic")] * len(j["scripts"])
+                else:
+                    impl[j["id"]] = [dict(crash="batch build failed (%s); alone: %s" % (str(e)[:200], r[0]))] * len(j["scripts"])
 
     # ---- compare
     feats, distinct, evaluations = {}, set(), 0
@@ -283,7 +301,7 @@ def tie(tier, seed, replay):
             im = impl_outcome((impl.get(o["id"] + "_m") or [None] * len(o["inputs"]))[k], o["rels"])
             ih = impl_outcome((impl.get(o["id"] + "_h") or [None] * len(o["inputs"]))[k], o["rels"])
             if not same(im, ih):
-                mism.append(dict(case=dict(id=o["id"], name=o["name"], program=o["text"], hand_expansion=o["hand"], input=inp), impl=im, model=None, spec=ih,
+                mism.append(dict(case=dict(id=o["id"], name=o["name"], program=o["text"], hand_expansion=o["hand"], input=inp, rels=o["rels"], raw=True), impl=im, model=None, spec=ih,
                                  kind="impl_violates_spec", known=o.get("known"), what="%s: macro program -> %s ; hand expansion -> %s" % (o["name"], short(im), short(ih))))
     # negatives
     neg_kinds = {}
@@ -306,9 +324,10 @@ def tie(tier, seed, replay):
         evaluations += 1
         r = build_terminates("c08hang", o["text"], [tuple(x) for x in o["rels"]], HANG_BUDGET)
         if not (r[0] == "rejected" and REC_MSG in r[1]):
-            mism.append(dict(case=dict(id=o["id"], name=o["name"], program=o["text"]), impl=r, model="Err ERecursive (the model has no notion of cost)", spec="rejected with '%s' in bounded time" % REC_MSG,
+            mism.append(dict(case=dict(id=o["id"], name=o["name"], program=o["text"], rels=o["rels"], hang=True), impl=r, model="Err ERecursive (the model has no notion of cost)", spec="rejected with '%s' in bounded time" % REC_MSG,
                              kind="impl_violates_spec", known=o.get("known") if r[0] == "hang" else None,
-                             what="recursive macro: the compiler does not come back within %d s (%s)" % (HANG_BUDGET, r[0])))
+                             what=("recursive macro: the compiler does not come back within %d s" % HANG_BUDGET) if r[0] == "hang" else
+                                  ("recursive macro not rejected with the dedicated message: %s %s" % (r[0], r[1][:200]))))
     samples = [dict(program=c["text"], hand_expansion=c.get("hand_text"), input={r: v for r, v in c["inputs"][0].items() if v},
                     impl=impl_outcome((impl.get(c["id"] + "_m") or [None])[0], c["prog"]["rels"])) for c in gcases[:3]]
     return dict(evaluations=evaluations, distinct_nontrivial=len(distinct),
